@@ -2,7 +2,8 @@
    LAPACK's svd is an arbitrary function `oracle` constrained only by the contract hypotheses
    (shape_contract / svd_contract); matrices over R are lists of rows read through mget Rops. *)
 From Coq Require Import List Arith Bool Reals.
-From TLV Require Import Base.Ops Base.Tensor Base.RSum Model.Svd Proofs.SvdProofsAux Proofs.SvdProofs.
+From TLV Require Import Base.Ops Base.Tensor Base.RSum Model.Svd Proofs.SvdProofsAux Proofs.SvdProofs
+  Proofs.SvdNNProofs Proofs.SvdSymeigProofs Proofs.SvdRandProofs Proofs.SvdInterfaceProofs.
 Import ListNotations.
 Local Open Scope nat_scope.
 
@@ -108,3 +109,90 @@ Theorem C05_flip_orthonormal : forall (U V : list (list R)) (ub : bool) (U' V' :
   orthonormal_cols (length U) (ncols U) (mget Rops U') /\ orthonormal_rows (length V) n (mget Rops V').
 Proof. exact flip_orthonormal. Qed.
 Print Assumptions C05_flip_orthonormal.
+
+(* --- non_negative option (make_svd_non_negative, code after the repairs b4786a7 and 5074a8d): both factors are
+       entrywise non-negative for EVERY input (U, S, V need not even be an SVD); sq stands for sqrt --- *)
+Theorem C05_nndsvd_nonneg : forall (sq : R -> R) (eps : R) (M U : list (list R)) (Sg : list R) (V : list (list R)),
+  (forall t, (0 <= sq t)%R) ->
+  let '(W, H) := make_svd_non_negative Rops sq eps M U Sg V NNDSVD in nonneg_mat W /\ nonneg_mat H.
+Proof. exact nndsvd_nonneg. Qed.
+Print Assumptions C05_nndsvd_nonneg.
+
+Theorem C05_nndsvda_nonneg : forall (sq : R -> R) (eps : R) (M U : list (list R)) (Sg : list R) (V : list (list R)),
+  (0 <= eps)%R ->
+  let '(W, H) := make_svd_non_negative Rops sq eps M U Sg V NNDSVDA in nonneg_mat W /\ nonneg_mat H.
+Proof. exact nndsvda_nonneg. Qed.
+Print Assumptions C05_nndsvda_nonneg.
+
+(* the input on which the code before 5074a8d returned -1/2 (signed mean) now gets +1/2 *)
+Example C05_nn_witness_signed_mean : forall sq : R -> R, sq 1%R = 1%R ->
+  let '(W, H) := make_svd_non_negative Rops sq (/ 4503599627370496)%R [[-1; 0]]%R [[1]]%R [1]%R [[-1; 0]]%R NNDSVDA in
+  mget Rops H 0 1 = (/ 2)%R.
+Proof. exact nn_witness_signed_mean. Qed.
+
+(* --- symeig_svd, known unrepaired finding: for a rank-deficient matrix, an exact eigh answer, any sqrt and any
+       eps > 0, the returned left vectors are not orthonormal (the null-space column M v / sqrt(eps) is zero) --- *)
+Theorem C05_symeig_rankdef_refuted : forall (sq : R -> R) (eps : R), (0 < eps)%R ->
+  exists M lam W,
+    eigh_contract 2 (fun i k => rsum 2 (fun r => (mget Rops M r i * mget Rops M r k)%R)) lam W /\
+    let '(U, Sg, V) := symeig_svd Rops (fun _ => (lam, W)) sq eps M 2 2 (Some 2) in
+    ~ orthonormal_cols 2 2 (mget Rops U).
+Proof. exact symeig_rankdef_refuted. Qed.
+Print Assumptions C05_symeig_rankdef_refuted.
+
+(* --- randomized_svd, lifting step U' = Q @ U of the model (mmul), over R.  PARTIAL: the hypothesis
+       M = Q (Q^T M) ("the range finder's Q captures the range of M", what n_eigenvecs + n_oversamples >= rank
+       buys with probability 1 over the Gaussian draw) is assumed, not derived from the range finder.
+       Then (Q U, S, V) has orthonormal columns, reproduces M, and every truncation has error = sum of the
+       discarded squared singular values of the small SVD --- *)
+Theorem C05_randomized_lift_partial : forall (d1 d2 c p k : nat) (Qm U V : list (list R)) (Sg : list R) (M B : nat -> nat -> R),
+  length Qm = d1 -> (forall i, i < d1 -> length (nth i Qm []) = c) -> length U = c -> length Sg = p ->
+  orthonormal_cols d1 c (mget Rops Qm) ->
+  (forall i j, i < d1 -> j < d2 -> M i j = rsum c (fun a => (mget Rops Qm i a * B a j)%R)) ->
+  orthonormal_cols c p (mget Rops U) -> orthonormal_rows p d2 (mget Rops V) ->
+  (forall a j, a < c -> j < d2 -> B a j = rsum p (fun t => (mget Rops U a t * nth t Sg 0 * mget Rops V t j)%R)) ->
+  k <= p ->
+  let U' := mmul Rops p Qm U in
+  orthonormal_cols d1 p (mget Rops U') /\
+  (forall i j, i < d1 -> j < d2 -> M i j = recon U' Sg V i j) /\
+  rsum d1 (fun i => rsum d2 (fun j => ((M i j - rsum k (fun t => (mget Rops U' i t * nth t Sg 0 * mget Rops V t j)%R))^2)%R))
+  = rsum (p - k) (fun t => ((nth (k + t) Sg 0)^2)%R).
+Proof. exact randomized_lift_model_partial. Qed.
+Print Assumptions C05_randomized_lift_partial.
+
+(* entries of the model's list-based matrix product (used by randomized_svd, symeig_svd and the mask imputation) *)
+Theorem C05_mmul_entries : forall (n : nat) (X Y : list (list R)) (i j m : nat),
+  i < length X -> j < n -> length (nth i X []) = m -> length Y = m ->
+  mget Rops (mmul Rops n X Y) i j = rsum m (fun t => (mget Rops X i t * mget Rops Y t j)%R).
+Proof. exact mg_mmul. Qed.
+Print Assumptions C05_mmul_entries.
+
+(* --- svd_interface: dispatch, and the end-to-end statement for method = truncated_svd --- *)
+Theorem C05_interface_dispatch : forall (f : nat -> list (list R) -> triple R) meth d2 Ml n flip ub iters sq eps,
+  meth <> MUnknown ->
+  svd_interface Rops f meth d2 Ml n flip ub None None iters sq eps =
+  Ok (let '(U0, S0, V0) := f 0 Ml in
+      let '(U, V) := if flip then svd_flip Rops U0 V0 ub else (U0, V0) in (U, S0, V)).
+Proof. exact interface_unfold. Qed.
+Print Assumptions C05_interface_dispatch.
+
+Theorem C05_interface_unknown_rejected : forall (f : nat -> list (list R) -> triple R) d2 Ml n flip ub nn mask iters sq eps,
+  svd_interface Rops f MUnknown d2 Ml n flip ub nn mask iters sq eps = Err.
+Proof. exact interface_unknown. Qed.
+Print Assumptions C05_interface_unknown_rejected.
+
+(* every matrix shape, every 1 <= n_eigenvecs <= min(shape), flip_sign off / U-based / V-based, any LAPACK answer meeting
+   the SVD contract: the triple returned by svd_interface has S = the leading singular values (non-negative,
+   non-increasing), orthonormal U columns / V rows, and error = the discarded squared singular values *)
+Theorem C05_interface_truncated_e2e : forall (oracle : bool -> triple R) d1 d2 (Mf : nat -> nat -> R) (Ml : list (list R))
+    r flip ub iters sq eps U S V,
+  (forall f, svd_contract d1 d2 Mf f (oracle f)) ->
+  1 <= r <= Nat.min d1 d2 ->
+  svd_interface Rops (fun _ _ => truncated_svd oracle d1 d2 (Some r)) MTruncated d2 Ml (Some r) flip ub None None iters sq eps
+    = Ok (U, S, V) ->
+  S = firstn r (snd (fst (oracle false))) /\ nonneg_list S /\ nonincreasing S /\
+  orthonormal_cols d1 r (mget Rops U) /\ orthonormal_rows r d2 (mget Rops V) /\
+  rsum d1 (fun i => rsum d2 (fun j => ((Mf i j - recon U S V i j)^2)%R))
+    = rsum (Nat.min d1 d2 - r) (fun t => ((nth (r + t) (snd (fst (oracle false))) 0)^2)%R).
+Proof. exact interface_truncated_e2e. Qed.
+Print Assumptions C05_interface_truncated_e2e.
